@@ -644,6 +644,14 @@ class Engine:
             return False
         cid = c.get_id()
         ncid = self._neg.get(cid)
+        if ncid is None:
+            # syntactic complement: Not(c), or x when c is Not(x)
+            if z3.is_not(c):
+                ncid = c.arg(0).get_id()
+            else:
+                nc_ = z3.Not(c)
+                ncid = nc_.get_id()
+                self._keep.append(nc_)
         for p in st.pc:
             pid = p.get_id()
             if pid == cid:
@@ -655,6 +663,25 @@ class Engine:
             self.stats["unknown_feas"] = self.stats.get("unknown_feas", 0) + 1
         return r != "unsat"
 
+    def quick_decide(self, st, c):
+        """syntactic decision of c against the path condition (no solver): True / False / None"""
+        cid = c.get_id()
+        ncid = self._neg.get(cid)
+        if ncid is None:
+            if z3.is_not(c):
+                ncid = c.arg(0).get_id()
+            else:
+                nc_ = z3.Not(c)
+                ncid = nc_.get_id()
+                self._keep.append(nc_)
+        for p in st.pc:
+            pid = p.get_id()
+            if pid == cid:
+                return True
+            if pid == ncid or self._neg.get(pid) == cid:
+                return False
+        return None
+
     def must(self, st, c):
         if c is True:
             return True
@@ -662,6 +689,14 @@ class Engine:
             return False
         cid = c.get_id()
         ncid = self._neg.get(cid)
+        if ncid is None:
+            # syntactic complement: Not(c), or x when c is Not(x)
+            if z3.is_not(c):
+                ncid = c.arg(0).get_id()
+            else:
+                nc_ = z3.Not(c)
+                ncid = nc_.get_id()
+                self._keep.append(nc_)
         for p in st.pc:
             pid = p.get_id()
             if pid == cid:
@@ -1064,6 +1099,13 @@ class Engine:
                 join0 = self.ir.ipdom(fr.fn)[fr.b]
                 if join0 < 0 and self.merging and self.ret_merging and len(st.frames) > base + 1 and not fr.discard:
                     join0 = 1 << 30  # will merge at the function's return
+                qd = self.quick_decide(st, c)
+                if qd is not None:
+                    tgt = succs[0] if qd else succs[1]
+                    self.jump(st, fr, tgt)
+                    if stop is not None and stop[0] == "blk" and tgt == stop[2] and len(st.frames) == stop[1] and fr.serial == stop[3]:
+                        return "stop"
+                    continue
                 if self.lazy_feasibility and self.merging and join0 >= 0:
                     # optimistic if-conversion: both arms are explored without a feasibility query; a path that ends
                     # badly inside an unchecked arm is checked for feasibility before it is reported (finish)
